@@ -56,8 +56,42 @@ enum Sp {
 struct Case {
     label: String,
     files: Vec<(Vec<Id>, Module)>,
+    /// symlinks: path of the link (a file's path without extension, or a directory's path) -> the real path
+    links: Vec<(Vec<Id>, Vec<Id>)>,
+    /// aelys.toml next to the entry: [module."<dotted>"] path = "<explicit>"
+    hints: Vec<(Vec<Id>, Vec<PSeg>)>,
     entry: Vec<Id>,
     probes: Vec<(Vec<Id>, Sp)>,
+}
+#[derive(Clone, Debug, PartialEq)]
+enum PSeg {
+    Seg(Id),
+    Up,
+    Cur,
+}
+fn explicit_text(ex: &[PSeg]) -> String {
+    let mut parts: Vec<String> = ex
+        .iter()
+        .map(|p| match p {
+            PSeg::Seg(x) => nm(*x),
+            PSeg::Up => "..".to_string(),
+            PSeg::Cur => ".".to_string(),
+        })
+        .collect();
+    if let Some(PSeg::Seg(_)) = ex.last() {
+        let l = parts.len() - 1;
+        parts[l] = format!("{}.aelys", parts[l]);
+    }
+    parts.join("/")
+}
+fn parse_explicit(s: &str) -> Option<Vec<PSeg>> {
+    s.split('/')
+        .map(|c| match c {
+            ".." => Some(PSeg::Up),
+            "." => Some(PSeg::Cur),
+            x => unnm(x.strip_suffix(".aelys").unwrap_or(x)).map(PSeg::Seg),
+        })
+        .collect()
 }
 
 const STD_MODS: [&str; 4] = ["math", "string", "time", "convert"];
@@ -160,6 +194,31 @@ fn materialise(root: &Path, c: &Case, probe: Option<&(Vec<Id>, Sp)>) {
             _ => None,
         };
         std::fs::write(&f, source_of(idx, path, m, pr)).unwrap();
+    }
+    for (src, tgt) in &c.links {
+        let is_file = c.files.iter().any(|(p, _)| p == tgt);
+        let (from, to) = if is_file {
+            (file_on_disk(root, src), file_on_disk(root, tgt))
+        } else {
+            let mut a = root.to_path_buf();
+            for x in src { a.push(nm(*x)); }
+            let mut b = root.to_path_buf();
+            for x in tgt { b.push(nm(*x)); }
+            (a, b)
+        };
+        std::fs::create_dir_all(from.parent().unwrap()).unwrap();
+        let _ = std::fs::remove_file(&from);
+        std::os::unix::fs::symlink(&to, &from).unwrap();
+    }
+    if !c.hints.is_empty() {
+        let mut t = String::new();
+        for (name, ex) in &c.hints {
+            let dotted = name.iter().map(|&x| nm(x)).collect::<Vec<_>>().join(".");
+            writeln!(t, "[module.\"{}\"]\npath = \"{}\"\n", dotted, explicit_text(ex)).unwrap();
+        }
+        let mut mf = file_on_disk(root, &c.entry);
+        mf.set_file_name("aelys.toml");
+        std::fs::write(&mf, t).unwrap();
     }
 }
 
@@ -280,6 +339,19 @@ fn coq_query(c: &Case) -> String {
             coq_list(&m.defs, |d| format!("Build_def {} {}", d.name, d.is_pub))
         )
     });
+    let links = coq_list(&c.links, |(a, b)| format!("({}, {})", coq_ids(a), coq_ids(b)));
+    let hints = coq_list(&c.hints, |(n, ex)| {
+        format!(
+            "({}, {})",
+            coq_ids(n),
+            coq_list(ex, |p| match p {
+                PSeg::Seg(x) => format!("PS {}", x),
+                PSeg::Up => "PUp".to_string(),
+                PSeg::Cur => "PCur".to_string(),
+            })
+        )
+    });
+    let fs = format!("(mkfs {} {} {})", fs, links, hints);
     format!(
         "Build_mq {} {} {}",
         fs,
@@ -323,6 +395,12 @@ fn text_of(c: &Case) -> String {
             write!(s, ";def {} {}", if d.is_pub { "pub" } else { "priv" }, nm(d.name)).unwrap();
         }
     }
+    for (a, b) in &c.links {
+        write!(s, ";link {} {}", fid(a), fid(b)).unwrap();
+    }
+    for (n, ex) in &c.hints {
+        write!(s, ";hint {} {}", n.iter().map(|&x| nm(x)).collect::<Vec<_>>().join("."), explicit_text(ex)).unwrap();
+    }
     for (f, sp) in &c.probes {
         match sp {
             Sp::Bare(n) => write!(s, ";probe {} bare {}", fid(f), nm(*n)).unwrap(),
@@ -333,7 +411,7 @@ fn text_of(c: &Case) -> String {
 }
 
 fn parse_case(text: &str) -> Option<Case> {
-    let mut c = Case { label: String::new(), files: Vec::new(), entry: Vec::new(), probes: Vec::new() };
+    let mut c = Case { label: String::new(), files: Vec::new(), links: Vec::new(), hints: Vec::new(), entry: Vec::new(), probes: Vec::new() };
     for item in text.split(|ch| ch == ';' || ch == '\n') {
         let w: Vec<&str> = item.split_whitespace().collect();
         if w.is_empty() || w[0].starts_with('#') {
@@ -359,6 +437,8 @@ fn parse_case(text: &str) -> Option<Case> {
                 let is_pub = *w.get(1)? == "pub";
                 c.files.last_mut()?.1.defs.push(Def { name: unnm(w.get(2)?)?, is_pub });
             }
+            "link" => c.links.push((unfid(w.get(1)?)?, unfid(w.get(2)?)?)),
+            "hint" => c.hints.push((dots(w.get(1)?)?, parse_explicit(w.get(2)?)?)),
             "probe" => {
                 let f = unfid(w.get(1)?)?;
                 let sp = match *w.get(2)? {
@@ -377,10 +457,12 @@ fn parse_case(text: &str) -> Option<Case> {
 // ------------------------------------------------------------------------------------------ generation
 struct B {
     files: Vec<(Vec<Id>, Module)>,
+    links: Vec<(Vec<Id>, Vec<Id>)>,
+    hints: Vec<(Vec<Id>, Vec<PSeg>)>,
 }
 impl B {
     fn new() -> B {
-        B { files: vec![(vec![ENTRY], Module::default())] }
+        B { files: vec![(vec![ENTRY], Module::default())], links: Vec::new(), hints: Vec::new() }
     }
     fn file(&mut self, path: Vec<Id>, defs: Vec<Def>) -> usize {
         self.files.push((path, Module { imports: Vec::new(), defs }));
@@ -390,7 +472,7 @@ impl B {
         self.files[from].1.imports.push(Import { path, form });
     }
     fn done(self, label: &str) -> Case {
-        Case { label: label.to_string(), files: self.files, entry: vec![ENTRY], probes: Vec::new() }
+        Case { label: label.to_string(), files: self.files, links: self.links, hints: self.hints, entry: vec![ENTRY], probes: Vec::new() }
     }
 }
 
@@ -554,6 +636,72 @@ fn structured(rng: &mut Rng, out: &mut Vec<Case>) {
         b.imp(r, vec![11], if shadow == 1 { Form::Module } else { f });
         out.push(b.done(&format!("entry-dir-lookup{}", shadow)));
     }
+    // one file under every spelling the loader accepts: its name, a symlink to it, through a symlinked
+    // directory, through explicit manifest paths written "./x", "d/../x", "d/./y"
+    {
+        let mut b = B::new();
+        let d10 = defs_for(rng, 0);
+        let d12 = defs_for(rng, 1);
+        b.file(vec![10], d10.clone());
+        b.file(vec![20, 12], d12.clone());
+        let k = b.file(vec![13], defs_for(rng, 2));
+        b.links.push((vec![11], vec![10]));
+        b.links.push((vec![21], vec![20]));
+        b.hints.push((vec![80], vec![PSeg::Cur, PSeg::Seg(10)]));
+        b.hints.push((vec![81], vec![PSeg::Seg(20), PSeg::Up, PSeg::Seg(10)]));
+        b.hints.push((vec![82, 83], vec![PSeg::Seg(20), PSeg::Cur, PSeg::Seg(12)]));
+        b.imp(0, vec![10], Form::Alias(70));
+        b.imp(0, vec![11], Form::Alias(71));
+        b.imp(0, vec![20, 12], Form::Alias(72));
+        b.imp(0, vec![21, 12], Form::Alias(73));
+        b.imp(0, vec![80], Form::Alias(74));
+        b.imp(0, vec![81], Form::Alias(75));
+        b.imp(0, vec![82, 83], Form::Alias(76));
+        b.imp(0, vec![13], Form::Alias(77));
+        let f = rand_form(rng, &d10, 78, true);
+        b.imp(k, vec![11], f);
+        b.imp(k, vec![81], Form::Alias(79));
+        out.push(b.done("spellings-one-file"));
+    }
+    // cycles closed through another spelling of a file already being loaded
+    for variant in 0..3 {
+        let mut b = B::new();
+        let a = b.file(vec![10], defs_for(rng, 0));
+        let c = b.file(vec![12], defs_for(rng, 1));
+        b.links.push((vec![11], vec![10]));
+        b.hints.push((vec![80], vec![PSeg::Cur, PSeg::Seg(10)]));
+        b.imp(0, vec![10], Form::Module);
+        match variant {
+            0 => b.imp(a, vec![11], Form::Alias(70)),            // self-import through a symlink
+            1 => { b.imp(a, vec![12], Form::Module); b.imp(c, vec![11], Form::Alias(70)); }
+            _ => { b.imp(a, vec![12], Form::Module); b.imp(c, vec![80], Form::Alias(70)); }
+        }
+        out.push(b.done(&format!("cycle-other-spelling{}", variant)));
+    }
+    // a symlink inside a directory pointing at a file outside it (rejected: outside the importing
+    // module's root), with and without a file of the link's name next to the entry; an explicit
+    // manifest path leaving the importing module's directory; a manifest path to a missing file
+    for variant in 0..4 {
+        let mut b = B::new();
+        b.file(vec![10], defs_for(rng, 0));
+        let m = b.file(vec![20, 14], defs_for(rng, 1));
+        b.imp(0, vec![20, 14], Form::Alias(70));
+        match variant {
+            0 => { b.links.push((vec![20, 13], vec![10])); b.imp(m, vec![13], Form::Alias(71)); }
+            1 => {
+                b.links.push((vec![20, 13], vec![10]));
+                b.file(vec![13], defs_for(rng, 2));
+                b.imp(m, vec![13], Form::Alias(71));
+            }
+            2 => { b.hints.push((vec![80], vec![PSeg::Up, PSeg::Seg(10)])); b.imp(m, vec![80], Form::Alias(71)); }
+            _ => {
+                b.hints.push((vec![15], vec![PSeg::Cur, PSeg::Seg(97)]));
+                b.file(vec![20, 15], defs_for(rng, 2));
+                b.imp(m, vec![15], Form::Alias(71));
+            }
+        }
+        out.push(b.done(&format!("outside-root{}", variant)));
+    }
     // directory module: pkg/mod.aelys importing pkg/helper.aelys
     {
         let mut b = B::new();
@@ -665,7 +813,7 @@ fn structured(rng: &mut Rng, out: &mut Vec<Case>) {
 }
 impl B {
     fn clone_case(&self, label: &str) -> Case {
-        Case { label: label.to_string(), files: self.files.clone(), entry: vec![ENTRY], probes: Vec::new() }
+        Case { label: label.to_string(), files: self.files.clone(), links: self.links.clone(), hints: self.hints.clone(), entry: vec![ENTRY], probes: Vec::new() }
     }
 }
 
@@ -680,6 +828,7 @@ fn random_case(rng: &mut Rng, n: usize) -> Case {
         _ => 4,
     };
     let nfiles = 2 + rng.below(6) as usize;
+    let respell = flavour != 4 && rng.chance(1, 4);
     let mut b = B::new();
     // directories
     let dirs: Vec<Vec<Id>> = if flavour == 2 {
@@ -789,7 +938,70 @@ fn random_case(rng: &mut Rng, n: usize) -> Case {
             b.imp(i, vec![STD, rng.below(4) as Id], Form::Alias(76 + rng.below(2) as Id));
         }
     }
-    b.done(&format!("random{}-f{}", n, flavour))
+    if respell {
+        // give some imports another spelling of the same file: a symlink to the file, a symlinked
+        // directory on the way, or an explicit manifest path
+        let mut next_link: Id = 85;
+        let mut next_hint: Id = 80;
+        for i in 0..nf {
+            let idir: Vec<Id> = b.files[i].0[..b.files[i].0.len() - 1].to_vec();
+            for k in 0..b.files[i].1.imports.len() {
+                let imp = b.files[i].1.imports[k].clone();
+                if imp.path.first() == Some(&STD) || imp.path.contains(&MISSING) || !rng.chance(1, 2) {
+                    continue;
+                }
+                let mut full = idir.clone();
+                full.extend(imp.path.iter().cloned());
+                let is_file = b.files.iter().any(|(p, _)| *p == full);
+                if !is_file {
+                    continue; // mod.aelys, path-symbol or entry-directory lookups keep their spelling
+                }
+                match rng.below(4) {
+                    0 => {
+                        // symlink next to the importing file
+                        let mut src = idir.clone();
+                        src.push(next_link);
+                        b.links.push((src, full.clone()));
+                        b.files[i].1.imports[k].path = vec![next_link];
+                        next_link += 1;
+                    }
+                    1 if imp.path.len() > 1 => {
+                        // symlinked first directory
+                        let mut src = idir.clone();
+                        src.push(next_link);
+                        let mut tgt = idir.clone();
+                        tgt.push(imp.path[0]);
+                        b.links.push((src, tgt));
+                        let mut np = vec![next_link];
+                        np.extend(imp.path[1..].iter().cloned());
+                        b.files[i].1.imports[k].path = np;
+                        next_link += 1;
+                    }
+                    _ => {
+                        // explicit manifest path, relative to the importing file's directory
+                        let mut ex: Vec<PSeg> = Vec::new();
+                        if rng.chance(1, 2) {
+                            ex.push(PSeg::Cur);
+                        }
+                        for (j, seg) in imp.path.iter().enumerate() {
+                            ex.push(PSeg::Seg(*seg));
+                            if j + 1 < imp.path.len() && rng.chance(1, 3) {
+                                ex.push(PSeg::Up);
+                                ex.push(PSeg::Seg(*seg));
+                            }
+                            if j + 1 < imp.path.len() && rng.chance(1, 4) {
+                                ex.push(PSeg::Cur);
+                            }
+                        }
+                        b.hints.push((vec![next_hint], ex));
+                        b.files[i].1.imports[k].path = vec![next_hint];
+                        next_hint += 1;
+                    }
+                }
+            }
+        }
+    }
+    b.done(&format!("random{}-f{}{}", n, flavour, if respell { "s" } else { "" }))
 }
 
 /// probes: for every import of every file, the names defined by files whose stem matches one of the
@@ -812,6 +1024,11 @@ fn auto_probes(c: &mut Case, rng: &mut Rng, max: usize) {
                 quals.push(p);
             }
             let mut names: Vec<Id> = Vec::new();
+            if !c.links.is_empty() || !c.hints.is_empty() {
+                for (_, tm) in &c.files {
+                    names.extend(tm.defs.iter().map(|d| d.name));
+                }
+            }
             for (tp, tm) in &c.files {
                 let stem = if tp.last() == Some(&MODSEG) && tp.len() > 1 { tp[tp.len() - 2] } else { *tp.last().unwrap() };
                 if stem == last || Some(stem) == prev {
